@@ -8,6 +8,7 @@ oracle: exact diagonalisation (dense Hamiltonians built here from the documented
 """
 import itertools
 import json
+import os
 import random
 import zlib
 
@@ -220,6 +221,58 @@ def gen_case(rng, exact=False, eig=False):
     rg = random.Random(zlib.crc32(json.dumps(case, sort_keys=True, default=str).encode()))
     if cons != 'None' and rg.random() < 0.6 and not (engine == 'single' and mixer == 'DensityMatrixMixer' and cons == 'parity'):
         case['regauge'] = [[rg.randrange(L - 1), rg.choice([1, -1, 2, 3])] for _ in range(rg.choice([1, 2, 3]))]
+    if model['name'] != 'longrange' and rg.random() < 0.25:
+        # every CouplingMPOModel takes explicit_plus_hc (the MPO holds half of each hermitian-conjugate pair, eff_H = H + H^dagger)
+        model['explicit_plus_hc'] = True
+    return case
+
+
+def gen_chi_ramp(rng):
+    """'chi lists and sweep counts': two-site DMRG with a mixer whose bond dimension is ramped up by chi_list {0: small, ..., K: >= full
+    bond dimension}, with the DEFAULT min_sweeps (derived by the engine from N_sweeps_check and chi_list) or an explicit one, N_sweeps_check
+    1-3, with / without chi_list_reactivates_mixer.  When the last entry of chi_list does not truncate and the mixer is active there, the
+    exact clause of the property applies; the run protocol (which chi_max / mixer is in force in which sweep, when the run may stop) is
+    compared with Model/SweepStop.v in every case."""
+    case = gen_case(rng, exact=True)
+    opts = case['options']
+    L = case['L']
+    full = 2 ** (L // 2)
+    K = rng.choice([4, 5, 6, 7, 8, 9, 10, 12])
+    cl = {'0': rng.choice([1, 2, 2, 3, 4])}
+    if rng.random() < 0.5:
+        k1 = rng.randrange(1, K)
+        cl[str(k1)] = rng.choice([2, 3, 4, 6, 8])
+    cl[str(K)] = rng.choice([full, 16, 20, 32])
+    opts['chi_list'] = cl
+    opts['trunc_params'].pop('chi_max', None)
+    if opts['diag_method'] == 'arpack':
+        opts['diag_method'] = 'lanczos'
+    if rng.random() < 0.3:
+        opts['trunc_params']['chi_max'] = rng.choice([3, 5])       # overwritten by chi_list[0] in the first sweep
+    opts['N_sweeps_check'] = nsc = rng.choice([1, 1, 1, 2, 3])
+    da = rng.choice([2, 3, 4])
+    opts['mixer_params'] = {'amplitude': rng.choice([1e-5, 1e-4, 1e-3]), 'decay': 2.0, 'disable_after': da}
+    opts['max_E_err'] = rng.choice([1e-10, 1e-11, 1e-12])
+    opts['max_sweeps'] = K + da + 8
+    ramp_exact = True
+    u = rng.random()
+    if u < 0.7:
+        opts.pop('min_sweeps', None)                                # the default: must cover the last key of chi_list
+    elif u < 0.85:
+        opts['min_sweeps'] = K + da + 1
+    else:
+        opts['min_sweeps'] = rng.randrange(1, K)                    # the user asked for less: only soundness and the run protocol
+        ramp_exact = False
+    v = rng.random()
+    if v < 0.2:
+        opts['chi_list_reactivates_mixer'] = True
+    elif v < 0.35:
+        opts['chi_list_reactivates_mixer'] = False                  # no mixer at the final chi: the exact clause does not apply
+        ramp_exact = False
+    case['exact'] = False
+    case['ramp_exact'] = ramp_exact
+    case['stream'] = 'dmrg-finite-chi-ramp'
+    case.pop('regauge', None)
     return case
 
 
@@ -243,6 +296,44 @@ def gen_inf(rng):
             opts.pop('mixer_params')
     return {'model': model, 'L': L, 'bc': 'infinite', 'engine': engine, 'init': [names[i] for i in idx], 'init_idx': idx, 'options': opts,
             'trace': False, 'init_chi': 8 if engine == 'vumps1' else None}
+
+
+def gen_inf_hc(rng, k):
+    """infinite chains, models built with explicit_plus_hc=True (MPO = half of the hermitian-conjugate pairs; every effective
+    Hamiltonian of the engine is the sum of the operator and its adjoint), every engine in turn, unit cells of 2-4 sites; run a second time
+    on the same Hamiltonian built without explicit_plus_hc (same state space, same options): both runs must report <psi|H|psi>
+    of their state and agree with each other and with the closed-form energy."""
+    engine = ['vumps1', 'vumps2', 'two', 'single'][k % 4]
+    name = rng.choice(['tfi', 'xxz']) if engine != 'vumps1' else 'tfi'
+    L = rng.choice([2, 2, 3, 4]) if name == 'tfi' else rng.choice([2, 2, 4])
+    if name == 'tfi':
+        # (one-site engine: DensityMatrixMixer only without a Z_2 charge, see T13_charge_one_site_dm_mixer_refuted)
+        model = {'name': 'tfi', 'J': 1.0, 'g': rng.choice([0.5, 1.5, 2.0]), 'conserve': rng.choice(['None', 'parity']) if engine == 'two' else 'None'}
+        idx = [0] * L
+    else:
+        model = {'name': 'xxz', 'Jxx': 1.0, 'Jz': 1.0, 'hz': 0.0}
+        idx = [i % 2 for i in range(L)]
+    model['explicit_plus_hc'] = True
+    names = ['up', 'down']
+    opts = {'trunc_params': {'chi_max': rng.choice([8, 12, 16]), 'svd_min': 1e-10}, 'max_sweeps': 30, 'N_sweeps_check': rng.choice([1, 2]),
+            'max_E_err': 1e-10}
+    if engine == 'two':
+        opts['mixer'] = rng.choice([True, 'DensityMatrixMixer', 'SubspaceExpansion'])
+    elif engine == 'single':
+        # (SubspaceExpansion, the default mixer of the one-site engine, raises with explicit_plus_hc: F13.1; so does combine=True: F13.2)
+        opts['mixer'] = 'DensityMatrixMixer'
+        opts['combine'] = False
+        opts['N_sweeps_check'] = rng.choice([1, 4])      # (odd update_env = N_sweeps_check // 2: F13.3)
+    elif engine == 'vumps2':
+        opts['mixer'] = rng.choice([None, None, 'SubspaceExpansion', 'DensityMatrixMixer'])
+    else:
+        opts['mixer'] = None
+    if opts['mixer'] is not None:
+        opts['mixer_params'] = {'amplitude': 1e-3, 'decay': 2.0, 'disable_after': 8}
+    if engine.startswith('vumps'):
+        opts['combine'] = False
+    return {'model': model, 'L': L, 'bc': 'infinite', 'engine': engine, 'init': [names[i] for i in idx], 'init_idx': idx, 'options': opts,
+            'trace': False, 'init_chi': 8 if engine == 'vumps1' else None, 'compare_without_hc': True, 'stream': 'dmrg-infinite-plus-hc'}
 
 
 def gen_inf_trace(rng):
@@ -282,6 +373,68 @@ def gen_schedule_case(rng):
     model = {'name': 'tfi', 'J': 1.0, 'g': 1.0, 'conserve': 'None'}
     return {'model': model, 'L': L, 'bc': 'finite' if fin else 'infinite', 'engine': engine, 'init': ['up'] * L, 'init_idx': [0] * L,
             'options': {'trunc_params': {'chi_max': 4}, 'start_env': 0}, 'schedule_only': True}
+
+
+# ------------------------------------------------------------------------------ run protocol (chi_list / min_sweeps / mixer / stop)
+def stop_inputs(case):
+    """the options that drive IterativeSweeps.run, with the documented defaults of the engine classes."""
+    opts = case['options']
+    fin = case['bc'] == 'finite'
+    vumps = case['engine'].startswith('vumps')
+    nsc = opts.get('N_sweeps_check', 1 if (fin or vumps) else 10)
+    cl = opts.get('chi_list')
+    chis = None if cl is None else sorted((int(k), int(v)) for k, v in cl.items())
+    mixer = opts.get('mixer', case['engine'] == 'single')
+    mp = opts.get('mixer_params') or {}
+    if vumps:
+        da, amp, dec = mp.get('disable_after', 5), mp.get('amplitude', 1e-5), mp.get('decay', 2)
+    else:
+        da, amp, dec = mp.get('disable_after', 15 if fin else 50), mp.get('amplitude', 1e-5), mp.get('decay', 2.0 if fin else 2.0 ** (15 / 50))
+    lim = None
+    if amp is not None and dec is not None:
+        # "we divide amplitude by decay after each sweep"; the mixer is disabled once the amplitude is <= machine epsilon
+        a, lim = float(amp), 0
+        while True:
+            a, lim = a / dec, lim + 1
+            if a <= np.finfo(float).eps or lim > 4000:
+                break
+    return {'nsc': int(nsc), 'min': opts.get('min_sweeps'), 'max': int(opts.get('max_sweeps', 1000)), 'chis': chis,
+            'chi0': (opts.get('trunc_params') or {}).get('chi_max'), 'mixer': bool(mixer), 'react': bool(opts.get('chi_list_reactivates_mixer', True)),
+            'disable': da, 'amp': lim}
+
+
+def stop_oracle(case, r):
+    """documented behaviour of chi_list / min_sweeps evaluated on the implementation's own record of the run (independent of the Coq model):
+    'an entry at_sweep: chi states that starting from sweep at_sweep the value chi is used for chi_max', and, when min_sweeps is left at
+    its default, a run is not declared converged before the last entry of chi_list has come into force."""
+    si, st = stop_inputs(case), r['stop']
+    probs = []
+    if si['chis']:
+        for s_, chi, _mix in st['sweeps']:
+            act = [c for k, c in si['chis'] if k <= s_]
+            want = act[-1] if act else si['chi0']
+            if chi != want:
+                probs.append('chi_list %s: sweep %d ran with chi_max = %s, expected %s' % (dict(si['chis']), s_, chi, want))
+                break
+        K, cK = si['chis'][-1]
+        if si['min'] is None and r['sweeps'] <= si['max'] and (r['sweeps'] <= K or r.get('chi_max_end') != cK):
+            probs.append('chi_list %s with default min_sweeps (engine derived %s): run declared converged after %d sweeps with chi_max = %s, '
+                         'before the last entry {%d: %d} came into force' % (dict(si['chis']), st['min_sweeps'], r['sweeps'], r.get('chi_max_end'), K, cK))
+    sw = [x[0] for x in st['sweeps']]
+    if sw != list(range(r['sweeps'])):
+        probs.append('optimisation sweeps recorded as %s, engine reports %d sweeps' % (sw[:20], r['sweeps']))
+    return probs
+
+
+def stop_lit(case, r):
+    si, st = stop_inputs(case), r['stop']
+    o = common.opt
+    n_ = lambda x: None if x is None else common.Some(Nat(min(int(x), 4500)))
+    chis = None if si['chis'] is None else common.Some([(Nat(k), Nat(c)) for k, c in si['chis']])
+    recs = [(Nat(a), n_(b), bool(c)) for a, b, c in st['sweeps']]
+    return coq_lit((Nat(si['nsc']), n_(si['min']), Nat(min(si['max'], 4500)), chis, n_(si['chi0']),
+                    (si['mixer'], si['react'], n_(si['disable']), n_(si['amp'])), [bool(c) for c in st['convs']], recs,
+                    (Nat(r['sweeps']), Nat(st['min_sweeps'] if st['min_sweeps'] is not None else 4999), bool(st['mixer_end']))))
 
 
 # ------------------------------------------------------------------------------ main
@@ -347,9 +500,13 @@ def main(ctx):
     cases += [gen_inf(rng) for _ in range(ctx.pick(8, 40))]
     cases += [gen_inf_trace(rng) for _ in range(ctx.pick(24, 160) * mult)]
     cases += [gen_schedule_case(rng) for _ in range(ctx.pick(40, 200))]
+    # (new strata are drawn after all the others so that the cases of the older streams stay the same for a given seed)
+    cases += [gen_chi_ramp(rng) for _ in range(ctx.pick(20, 200) * mult)]
+    cases += [gen_inf_hc(rng, k) for k in range(ctx.pick(8, 48))]
     for c in common.corpus_cases('C13'):
         cases.append(c['case'])
     results = run_chunks(ctx, cases)
+    coq_t, coq_t_idx = [], []
     coq_s, coq_s_idx, coq_r, coq_r_idx = [], [], [], []
     coq_q, coq_q_idx = [], []
     coq_i, coq_i_idx = [], []
@@ -357,7 +514,7 @@ def main(ctx):
     for idx, (case, r) in enumerate(zip(cases, results)):
         if r is None:
             continue
-        stream = 'schedule' if case.get('schedule_only') else ('env-trace-inf' if case.get('trace_inf') else 'dmrg-' + case['bc'])
+        stream = 'schedule' if case.get('schedule_only') else ('env-trace-inf' if case.get('trace_inf') else case.get('stream', 'dmrg-' + case['bc']))
         if 'runner_error' in r:
             ctx.fail('correspondence', 'runner failed: ' + r['runner_error'][-700:], {'stream': stream, 'case': case})
             continue
@@ -383,6 +540,12 @@ def main(ctx):
             continue
         probs = []
         opts = case['options']
+        if case.get('trace_inf') and 'stop' in r:
+            sp = stop_oracle(case, r)
+            if sp:
+                ctx.fail('oracle', '; '.join(sp[:3]), {'stream': stream, 'case': case}, match_key='C13:' + stream)
+            coq_t.append(stop_lit(case, r))
+            coq_t_idx.append(idx)
         if case.get('trace_inf'):
             # ---- infinite environment trace: stored keys / tags / ages and the reads for eff_H vs Model/SweepInf.v
             steps = r.get('inf_steps') or []
@@ -402,6 +565,13 @@ def main(ctx):
             coq_i.append(lit)
             coq_i_idx.append(idx)
             continue
+        if 'stop' in r:
+            probs += stop_oracle(case, r)
+            coq_t.append(stop_lit(case, r))
+            coq_t_idx.append(idx)
+            hist['stop_trace_chi_list'] = hist.get('stop_trace_chi_list', 0) + ('chi_list' in opts)
+            hist['stop_trace_default_min_sweeps'] = hist.get('stop_trace_default_min_sweeps', 0) + ('min_sweeps' not in opts)
+            hist['stopped_converged'] = hist.get('stopped_converged', 0) + (r['sweeps'] <= opts.get('max_sweeps', 1000))
         if case['bc'] == 'finite':
             H = dense_H(case)
             mask = sector_mask(case)
@@ -431,7 +601,7 @@ def main(ctx):
             # (the reported eigenvalue of an effective Hamiltonian is the expectation value of H in a normalised state of the sector: variational)
             if Eexp < E0 - 1e-10 * scale or r['E'] < E0 - 1e-9 * scale:
                 probs.append('energy below the exact ground-state energy of the sector: E = %.12g, <H> = %.12g, E0 = %.12g' % (r['E'], Eexp, E0))
-            if case.get('exact'):
+            if case.get('exact') or case.get('ramp_exact'):
                 # the ground state "of the sector": of the explicitly conserved charge (mask), or - when the model conserves less than H does -
                 # of the symmetry sector of H in which the returned state lies (the Krylov space of a Lanczos update cannot leave the symmetry
                 # sector of its start vector, the mixers are built from H; diag_method ED_block / default -> ED is documented to move between
@@ -450,6 +620,20 @@ def main(ctx):
                 E0x = E0
             deg = int(np.sum(w < E0x + 1e-9 * scale))
             gap = (w[deg] - E0x) if deg < len(w) else 1.0
+            if case.get('ramp_exact'):
+                # the last entry of chi_list is >= the full bond dimension 2^(L//2) and the mixer is (re)activated there: nothing is truncated
+                # in the requested final configuration, whatever truncation the engine reports for the sweeps it actually made
+                hist['ramp_exact'] = hist.get('ramp_exact', 0) + 1
+                if abs(r['E'] - E0x) > 1e-7 * scale:
+                    probs.append('two-site DMRG with mixer and chi_list %s (last entry does not truncate) did not reach the exact energy: E = %.12g, '
+                                 'E0 = %.12g (%d sweeps, chi = %s, truncation error of the last sweep %.2e)'
+                                 % (opts['chi_list'], r['E'], E0x, r['sweeps'], r['chi'], r['last_trunc_err']))
+                elif gap > 1e-3:
+                    ov = np.linalg.norm(V[:, :deg].conj().T @ psi[mask])
+                    if ov < 1 - 1e-5:
+                        probs.append('chi_list ramp: exact energy but overlap with the ground-state eigenspace is %.8f' % ov)
+                    else:
+                        hist['exact_reached'] += 1
             if case.get('exact') and r['max_trunc_err'] < 1e-18 and max(r['chi']) <= 16:
                 E0 = E0x
                 if abs(r['E'] - E0) > 1e-7 * scale:
@@ -513,6 +697,16 @@ def main(ctx):
                 probs.append('infinite: energy per site %.10g / %.10g below the exact value %.10g' % (r['E'], r['E_mpo'], e_exact))
             elif abs(r['E_mpo'] - e_exact) > 5e-3 or abs(r['E'] - r['E_mpo']) > 1e-4:
                 probs.append('infinite: E = %.10g, <H>/site = %.10g, exact %.10g' % (r['E'], r['E_mpo'], e_exact))
+            if case.get('compare_without_hc'):
+                ref = r.get('ref') or {}
+                hist['inf_plus_hc_pairs'] = hist.get('inf_plus_hc_pairs', 0) + 1
+                if not r.get('hc'):
+                    ctx.fail('correspondence', 'model built with explicit_plus_hc=True has H_MPO.explicit_plus_hc = False', {'stream': stream, 'case': case})
+                if ref.get('error'):
+                    probs.append('the same run without explicit_plus_hc raised %s' % ref['error'])
+                elif abs(ref['E_mpo'] - r['E_mpo']) > 1e-5 or abs(ref['E'] - r['E']) > 1e-4:
+                    probs.append('infinite: explicit_plus_hc=True gives E = %.10g, <H>/site = %.10g; the same Hamiltonian without it E = %.10g, '
+                                 '<H>/site = %.10g' % (r['E'], r['E_mpo'], ref['E'], ref['E_mpo']))
             if abs(r['E_bond'] - r['E_mpo']) > 1e-8:
                 probs.append('infinite: mean bond energy %.10g differs from the MPO expectation value %.10g' % (r['E_bond'], r['E_mpo']))
             ctx.count(stream, [case['model'], case['engine'], opts], nontrivial=True,
@@ -548,7 +742,17 @@ def main(ctx):
         ctx.fail('correspondence', 'Model/SweepInf.v and the instrumented infinite run disagree on the stored environments (keys, which factors '
                  'are current, ages) after some local update or on the environments read for eff_H',
                  {'stream': 'env-trace-inf', 'case': cases[coq_i_idx[b]]})
-    ctx.cov['traces_validated_against_impl'] = len(coq_s) + len(coq_r) + len(coq_q) + len(coq_i)
+    bad, err = common.coq_failing_indices('cases_c13_t', ['Base.Prelude', 'Model.SweepStop'], 'check_stop_run', coq_t, shard=100)
+    if err:
+        ctx.fail('correspondence', 'model evaluation failed: ' + err[-600:], None)
+    for b in bad[:5]:
+        ctx.fail('correspondence', 'Model/SweepStop.v and the recorded run protocol disagree (derived min_sweeps, chi_max / mixer in force in '
+                 'some sweep, number of sweeps at which the run stopped, given the recorded is_converged() values)',
+                 {'stream': 'stop-trace', 'case': cases[coq_t_idx[b]], 'impl': results[coq_t_idx[b]].get('stop')})
+    if os.environ.get('VERIF_C13_DUMP'):      # debugging aid: all failures with their cases
+        json.dump(ctx.violations, open(os.environ['VERIF_C13_DUMP'], 'w'), indent=1, default=str)
+    ctx.cov['stop_traces'] = len(coq_t)
+    ctx.cov['traces_validated_against_impl'] = len(coq_s) + len(coq_r) + len(coq_q) + len(coq_i) + len(coq_t)
     ctx.cov['input_distribution'] = hist
     ctx.assumptions += [
         'C13 model: only the sweep protocol (schedule, which environments are stored/deleted/recomputed, site versions); tensors, energies, '
@@ -565,5 +769,7 @@ RULE = ('finite chains of 3-8 sites: TFI, XXZ, spinless fermions, longer-range s
         'TwoSite/SingleSite DMRG x mixers None/default/DensityMatrixMixer/SubspaceExpansion x diag_method default (max_N_for_ED 0-50: Lanczos '
         'forced)/lanczos/arpack/ED_block x lanczos_params (E_shift +/-, N_min, N_max, N_cache, reortho, cutoff, P_tol, E_tol; incl. last updates '
         'with Krylov dimension 1) x chi_max 2-16 / chi_list x combine; reported E vs dense <psi|H|psi> within 20|H|sqrt(trunc_err) (the '
-        'engine\'s own E_trunc is not used as slack) and E >= E0(sector) without slack; infinite: iDMRG and VUMPS '
-        '(single/two-site) on TFI and Heisenberg vs closed-form energies.  distinct = distinct (model, L, engine, initial state, options).')
+        'engine\'s own E_trunc is not used as slack) and E >= E0(sector) without slack; chi_list ramps {0: 1-4, .., K: >= full bond dimension} '
+        'x N_sweeps_check 1-3 x default/explicit min_sweeps x chi_list_reactivates_mixer: run protocol (chi_max and mixer per sweep, stop) vs '
+        'Model/SweepStop.v and exact ground state when the last entry does not truncate; infinite: iDMRG and VUMPS (single/two-site) on TFI and '
+        'Heisenberg vs closed-form energies, unit cells 2-4, every engine also with explicit_plus_hc=True vs the same run without it.  distinct = distinct (model, L, engine, initial state, options).')
